@@ -15,7 +15,7 @@ def run(ctx):
     graphs = "Small" if ctx.thorough else "Quick15"
     sc.sub_mc(ctx, "c15_m1", graphs, "KAll", "none", ["StartAfterPredsSucceeded", "EachJobOnce", "AllRunWhenNoFailure", "NeverCrashes"])
     behs = sc.tlc_schedules(ctx, "c15_sched", graphs, "KAll", fails="none", simulate=2500 if ctx.thorough else 300, seed=ctx.seed + 5)
-    pick = ctx.rng.sample(behs, min(len(behs), 500 if ctx.thorough else 30))
+    pick = sc.pick_schedules(ctx, behs, 500 if ctx.thorough else 30)
     specs = sc.schedules_to_specs(pick, "cf")
     # sequential loop (debug worker): no control needed, bodies run inline
     seen = set()
